@@ -53,6 +53,8 @@ def gen(rng, n):
               'consume_delay': rng.choice([0.0, 0.0, 0.0, 1.0, 3.0]), 'strategy': strat(rng)}
         if which == 'to_sync' and rng.random() < 0.3:
             sc['own_loop'] = rng.choice(['fresh', 'reused'])
+        if which == 'to_sync' and rng.random() < 0.4:      # the consuming thread is descheduled for a while in the middle of a step
+            sc['stalls'] = {'L1': [rng.randint(1, 30), rng.choice([0.5, 1.0, 3.0, 6.0])]}
         out.append(sc)
     return out
 
